@@ -125,6 +125,7 @@ class Executor:
         self.max_inline = self.opts.get('max_inline', 12)
         self.arith_overflow = self.opts.get('overflow', False)
         self.spec = SpecEval(self)
+        self.m.regex_hook = self.regex_const_axioms
         self._wcache = {}
         self._mcache = {}
         self.reset()
@@ -142,6 +143,7 @@ class Executor:
         self.prune_solver.set('timeout', 300)
         self.prune_depth = 0
         self.unfold_done = set()
+        self.regex_used = {}
         self.iter_counter = 0
         self.view_versions = {}
         self.fresh_ids = set()
@@ -454,6 +456,7 @@ class Executor:
             gname = op['n']
             T = self.m.elem(op['t'])
             ref = self.global_ref(gname)
+            st.assume(z3.And(ref > 0, ref < self.entry_alloc))   # package-level variables exist before any call
             return Val(op['t'], [ref], ptr=Ptr('obj', T, '', ref))
         if k == 'func':
             return Val(op['t'], [z3.IntVal(self.func_id(op['n']))], py=('func', op['n']))
@@ -1324,12 +1327,22 @@ class Executor:
             p = self.ptr_of(x)
             self.nil_check(st, frame, ins, p)
             v = self.load(st, p, ins['t'])
+            if x.ptr is None and self.m.kind(ins['t']) == 'struct' and x.t in self.m.any_index and self.db.contracts \
+                    and (self.m.types.get(ins['t']) or {}).get('pkg', '').endswith('/internal/parser'):
+                # a whole AST node is copied out of its pointer: the definition of its well-formedness applies
+                from . import specfuns
+                env = self.spec.env_for(frame, st, st, None)
+                specfuns.unfold_any(self.spec, env, None, self.m.any_make(x.t, [x.leaves[0]]), [x.t])
             key = (p.kind, p.T, p.path, str(p.ref))
             if key in self.closure_cells:
                 v.py = self.closure_cells[key]
             a0 = ins['args'][0]
             if a0['k'] == 'global':
                 v.py = ('globalval', a0['n'])
+                if a0['n'] in self.regex_globals() and len(v.leaves) == 1:
+                    # assigned once, from regexp.MustCompile, in the package initialiser
+                    st.assume(v.leaves[0] != 0)
+                    self.trusted.add('package-level regexp %s is initialised by MustCompile (non-nil)' % a0['n'].rsplit('.', 1)[-1])
             return v
         if tok == '!':
             return Val(ins['t'], [z3.Not(x.leaves[0])])
@@ -2241,6 +2254,25 @@ class Executor:
 
     def exit_paths(self, st, frame, args, ins):
         self.npaths += 1
+
+    def regex_const_axioms(self, consts):
+        """the compiled patterns of the module are known texts: on literal strings the match is computed"""
+        import re as _re
+        out = []
+        if not self.regex_used:
+            return out
+        f = self.m.uf('re_match', self.m.Int, self.m.Str, self.m.Bool)
+        for gname, ref in self.regex_used.items():
+            pat = self.regex_globals().get(gname)
+            if pat is None:
+                continue
+            try:
+                rx = _re.compile(pat)
+            except Exception:
+                continue
+            for text, c in consts:
+                out.append(f(ref, c) == z3.BoolVal(rx.search(text) is not None))
+        return out
 
     def regex_globals(self):
         if self._regex is None:
